@@ -321,3 +321,85 @@ M('C08','stop-no-mutex','kvstore/batch_writer.go','''func (bw *BatchedWriter) St
 		bw.writeWg.Wait()
 	}''','lock/guarded-by BatchedWriter.running')
 M('C08','done-loop-wrong-bound','kvstore/batch_collector.go','for i := range br.writtenValuesCounter {','for i := range br.writtenValuesCounter - 1 {','collector/done-once-per-slot')
+
+# ---------------- C09
+M('C09','root-nolock','ads/map_impl.go','''func (m *authenticatedMap[IdentifierType, K, V]) Root() (root IdentifierType) {
+	m.mutex.Lock()
+	defer m.mutex.Unlock()
+''','''func (m *authenticatedMap[IdentifierType, K, V]) Root() (root IdentifierType) {
+''','lock/guarded-by authenticatedMap.tree in ads.authenticatedMap.Root')
+M('C09','set-rlock','ads/map_impl.go','''func (m *authenticatedMap[IdentifierType, K, V]) Set(key K, value V) error {
+	m.mutex.Lock()
+	defer m.mutex.Unlock()''','''func (m *authenticatedMap[IdentifierType, K, V]) Set(key K, value V) error {
+	m.mutex.RLock()
+	defer m.mutex.RUnlock()''','lock/guarded-by')
+M('C09','has-after-update','ads/map_impl.go','''	has, err := m.has(keyBytes)
+	if err != nil {
+		return ierrors.Wrap(err, "failed to check if key exists")
+	}
+
+	if err := m.tree.Update(keyBytes, valueBytes); err != nil {
+		return ierrors.Wrap(err, "failed to update tree")
+	}
+''','''	if err := m.tree.Update(keyBytes, valueBytes); err != nil {
+		return ierrors.Wrap(err, "failed to update tree")
+	}
+
+	has, err := m.has(keyBytes)
+	if err != nil {
+		return ierrors.Wrap(err, "failed to check if key exists")
+	}
+''','size/has-before-mutation ads.authenticatedMap.Set')
+M('C09','set-always-addsize','ads/map_impl.go','''	if !has {
+		if err := m.addSize(1); err != nil {
+			return ierrors.Wrap(err, "failed to increase size")
+		}
+	}''','''	_ = has
+	if err := m.addSize(1); err != nil {
+		return ierrors.Wrap(err, "failed to increase size")
+	}''','size/accounting ads.authenticatedMap.Set addSize')
+M('C09','delete-absent-still-deletes','ads/map_impl.go','''	if !has {
+		return false, nil
+	}
+
+	if err := m.tree.Delete(keyBytes); err != nil {''','''	if err := m.tree.Delete(keyBytes); err != nil {''','size/accounting ads.authenticatedMap.Delete absent-is-noop')
+M('C09','set-update-error-swallowed','ads/map_impl.go','''	if err := m.tree.Update(keyBytes, valueBytes); err != nil {
+		return ierrors.Wrap(err, "failed to update tree")
+	}''','''	if err := m.tree.Update(keyBytes, valueBytes); err != nil {
+		return nil
+	}''','err/failure-returns-error')
+M('C09','set-no-rawkey','ads/map_impl.go','''	if err := m.rawKeysStore.Set(key, types.Void); err != nil {
+		return ierrors.Wrap(err, "failed to set raw key")
+	}
+
+	if !has {''','''	if !has {
+		if err := m.rawKeysStore.Set(key, types.Void); err != nil {
+			return ierrors.Wrap(err, "failed to set raw key")
+		}
+	}
+
+	if !has && len(keyBytes) > 0 {''','size/')
+M('C09','commit-no-root','ads/map_impl.go','''	if err := m.root.Set(IdentifierType(m.tree.Root())); err != nil {
+		return ierrors.Wrap(err, "failed to set root")
+	}
+
+	return m.tree.Commit()''','''	return m.tree.Commit()''','commit/root-and-trie')
+M('C09','commit-no-trie-commit','ads/map_impl.go','''	return m.tree.Commit()''','''	return nil''','commit/root-and-trie')
+M('C09','import-with-hasher','ads/map_impl.go','newMap.tree = smt.ImportSparseMerkleTrie(mapStoreAdapter, sha256.New(), root[:], smt.WithValueHasher(nil))','newMap.tree = smt.ImportSparseMerkleTrie(mapStoreAdapter, sha256.New(), root[:])','reopen/constructor')
+M('C09','prefix-collision','ads/map_impl.go','size:         kvstore.NewTypedValue(store, []byte{prefixSizeKey},','size:         kvstore.NewTypedValue(store, []byte{prefixRootKey},','layout/prefixes-distinct')
+M('C09','restored-inverted','ads/map_impl.go','return !ierrors.Is(err, kvstore.ErrKeyNotFound)','return ierrors.Is(err, kvstore.ErrKeyNotFound)','reopen/was-restored')
+M('C09','adapter-set-swapped','ads/map_store_adapter.go','return k.underlying.Set(key, value)','return k.underlying.Set(value, key)','fwd/delegates ads.mapStoreAdapter.Set')
+M('C09','stream-continue-on-error','ads/map_impl.go','''			innerErr = ierrors.Wrapf(valueErr, "failed to get value for key %s", keyBytes)
+
+			return false''','''			innerErr = ierrors.Wrapf(valueErr, "failed to get value for key %s", keyBytes)
+
+			return true''','iterate/stop-and-report')
+M('C09','delete-size-plus','ads/map_impl.go','if err := m.addSize(-1); err != nil {','if err := m.addSize(1); err != nil {','size/accounting ads.authenticatedMap.Delete addSize')
+M('C09','get-drops-tree-error','ads/map_impl.go','''	valueBytes, err := m.tree.Get(keyBytes)
+	if err != nil {
+		return value, false, ierrors.Wrap(err, "failed to get from tree")
+	}
+
+	if valueBytes == nil {''','''	valueBytes, _ := m.tree.Get(keyBytes)
+
+	if valueBytes == nil {''','err/checked')
